@@ -18,6 +18,9 @@ def main():
         mod = None
     if mod is not None:
         obs += mod.obligations()
+    if prop in ("C01", "C05", "C07"):
+        from tx import subst
+        obs += subst.obligations(prop)
     json.dump(dict(obligations=obs), sys.stdout, ensure_ascii=False)
 
 
